@@ -59,6 +59,7 @@ type task struct {
 	mapCalls map[int32]int
 	prio     int
 	phase    string
+	inOp     bool // between Pre and Post of an instrumented operation (operand evaluation may yield in between)
 }
 
 // Result is what one world run reports.
@@ -153,6 +154,7 @@ func install() {
 		}
 		e.park(t, site, kind)
 		t.state = stInOp
+		t.inOp = true
 		t.site = site
 		t.kind = kind
 		return t
@@ -163,6 +165,7 @@ func install() {
 			return
 		}
 		// may run concurrently with the running task (woken partner): touch only t
+		t.inOp = false
 		t.state = stParked
 		t.site = site
 		t.kind = -t.kind
@@ -329,6 +332,7 @@ func (v env) Pre() any {
 	}
 	e.park(t, -1, verifrt.KSend)
 	t.state = stInOp
+	t.inOp = true
 	t.site = -1
 	return t
 }
@@ -337,6 +341,7 @@ func (v env) Post(h any) {
 	if !ok || t == nil || t.aborting {
 		return
 	}
+	t.inOp = false
 	t.state = stParked
 	t.site = -2
 	<-t.wake
@@ -441,6 +446,13 @@ func (e *Engine) choose(cand []*task) *task {
 func (e *Engine) runPhase() {
 	for {
 		synctest.Wait()
+		if prev := e.running; prev != nil && prev.state == stRunning {
+			// the task that held the token neither parked, nor entered an instrumented operation, nor
+			// finished, yet everything is quiescent: it is blocked somewhere gsinstr put no hook. The
+			// one-task-at-a-time invariant is about to break, so nothing from this world is believed.
+			e.res.Tool = fmt.Sprintf("task %s is blocked at an operation that is not instrumented (last known site: %s)", prev.name, siteName(prev.site))
+			return
+		}
 		e.running = nil
 		now := time.Since(e.t0)
 		var cand []*task
@@ -489,6 +501,9 @@ func (e *Engine) runPhase() {
 		e.logf("d %d t%d s%d k%d", e.res.Decisions, t.id, t.site, t.kind)
 		e.burst = e.chooseBurst()
 		t.state = stRunning
+		if t.inOp {
+			t.state = stInOp // yielded while evaluating the operands of an instrumented operation
+		}
 		t.wakeAt = 0
 		e.running = t
 		t.wake <- struct{}{}
@@ -701,6 +716,9 @@ func (e *Engine) bubble() {
 			w.Sched = world.Sched{Strategy: "serial"}
 			e.runPhase()
 			w.Sched = save
+			if e.res.Tool != "" {
+				return
+			}
 			soloFail = append(soloFail, e.phaseVerdict(prop, false))
 			soloOut = append(soloOut, e.outs[i])
 			var st int64
@@ -732,6 +750,9 @@ func (e *Engine) bubble() {
 		}
 	}
 	e.runPhase()
+	if e.res.Tool != "" {
+		return
+	}
 	for _, t := range e.tasks {
 		e.res.Steps += t.steps
 	}
